@@ -65,6 +65,11 @@ func ParseGenLine(l string) GenesisCfg {
 		coef := sdkmath.LegacyNewDecFromBigIntWithPrec(mustBig(next()), 18)
 		cfg.Mint.Phases = append(cfg.Mint.Phases, minttypes.Phase{Inflation: infl, YearCoefficient: coef})
 	}
+	if i < len(t) && t[i] == "S" {
+		next()
+		cfg.Subaccount.WagerEnabled = next() == "1"
+		cfg.Subaccount.DepositEnabled = next() == "1"
+	}
 	return cfg
 }
 
